@@ -72,7 +72,7 @@ def asgi_scenario(job, V):
     n = job["items"]
     raise_at = job.get("raise_at")  # producer raises instead of yielding item k (k == n: raises at the end)
     never = job.get("never_disconnect", False)
-    log: Dict[str, Any] = {"entered": False, "marks": 0, "sent": [], "yielded": [], "exc": None, "ret_at": None, "disc_at": None, "started_steps": []}
+    log: Dict[str, Any] = {"entered": False, "marks": 0, "sent": [], "yielded": [], "exc": None, "ret_at": None, "disc_at": None, "started_steps": [], "ahead": []}
 
     async def gen():
         log["entered"] = True
@@ -89,6 +89,7 @@ def asgi_scenario(job, V):
                     return
                 item = {"data": f"item{i}"} if cls == "sse" else b"chunk%d" % i
                 log["yielded"].append((i, now()))
+                log["ahead"].append(i + 1 - sum(1 for _, m_ in log["sent"] if m_.get("body") and not m_["body"].startswith(b":")))
                 yield item
         finally:
             log["marks"] += 1
@@ -169,6 +170,11 @@ def check_asgi(e: Engine, job, V, log) -> str:
         raise Fail("delivered-not-a-prefix-of-yielded", f"{data} vs {exp}")
     if len(data) > len(log["yielded"]):
         raise Fail("delivered-more-than-yielded")
+    # pacing: the hand-off between producer and client is bounded (one queued, one in the relay's hands, one being sent), so the producer is never
+    # more than 3 items ahead of what the client got -- the finite stand-in for "an endless producer that never waits cannot keep the
+    # disconnect from being seen" (with an unbounded hand-off it would run to its end, or forever, before the first byte is sent)
+    if log["ahead"] and max(log["ahead"]) > 3:
+        raise Fail("producer-not-paced-by-the-client", f"the producer was {max(log['ahead'])} items ahead of the client")
     # the producer's cleanup ran exactly once, nothing left pending
     if log["marks"] != (1 if log["entered"] else 0):
         raise Fail("producer-cleanup-count", f"finally ran {log['marks']} times although the producer "
@@ -430,6 +436,9 @@ def jobs(tier: str):
     for extra in (dict(), dict(raise_at=nf)):
         v = dict(kind="asgi", cls="sse", items=nf, fast_producer=True, name=f"asgi/sse/n{nf}/fast-producer{'-raise' if extra else ''}", weight=400, **extra)
         out.extend(_split(v, 8))
+    # a long backlog produced without ever waiting (in-memory data): 8 items, the hand-off must pace the producer
+    v = dict(kind="asgi", cls="sse", items=8, fast_producer=True, never_disconnect=True, name="asgi/sse/n8/fast-producer-backlog", weight=300)
+    out.append(v)
     for cls in ("stream", "next"):
         for n in range(0, 4):
             out.append(dict(name=f"wsgi/{cls}/n{n}", kind="wsgi", cls=cls, items=n))
